@@ -446,12 +446,10 @@ def main(argv=None):
     hb = hist.history_boundary_cases()
     cases += hb[ck.seed % 3::3] if quick else hb
     cases += hist.multi_boundary_cases()
-    n_scripts = 70 if quick else 1500
+    n_scripts = 60 if quick else 1500
     cases += [hist.random_script(ck.rng, 1) for _ in range(n_scripts)]
     cases += [hist.random_script(ck.rng, ck.rng.choice([2, 2, 3])) for _ in range(n_scripts // 2)]
-    import time as _t; _t0=_t.time(); print('T prove+build', round(_t0-ck.t0,1), file=sys.stderr)
     results = run_impl_batch(cases)
-    print('T impl', round(_t.time()-_t0,1), file=sys.stderr); _t0=_t.time()
 
     dev = {}
     max_sql_dev = 0
@@ -484,7 +482,7 @@ def main(argv=None):
                         ck.count("write:" + sh.OPNAME[rec[1][0]])
                     continue
                 _, si, b, q = step
-                _, a, snap, epoch, broken = rec
+                _, a, snap, epoch, broken = rec[:5]
                 if broken or snap is None:
                     continue
                 stored = {w[3]: w for w in snap}
@@ -499,8 +497,8 @@ def main(argv=None):
                                              "zero-width" if q[2] == q[3] else
                                              "sub-ms" if q[3] - q[2] < 1000 else "two-edged"))
                     ck.count("limit:" + ("neg" if q[1] < 0 else "0" if q[1] == 0 else "pos"))
-                    if epoch > 1 + len(stored) and case["stream"] in ("history", "multi"):
-                        ck.count("read-after-rewrite")
+                    if rec[5]:
+                        ck.count("read-after-rewrite:" + case["stream"])
                 else:
                     bad = oracle_count(be, stored, q, a, unlimited.get((si, b, epoch, q[1], q[2])))
                     ck.note_case([be, snap, q], nontrivial=False)
@@ -527,7 +525,6 @@ def main(argv=None):
         ck.broken.append(f"Section hypothesis sql_end_err violated on the engine: |sql_end_ms - (ts+dur)| = {max_sql_dev} "
                          f"at {sql_dev_at}")
 
-    print('T oracle', round(_t.time()-_t0,1), file=sys.stderr); _t0=_t.time()
     # --- correspondence with the model
     if have_driver:
         # float parameters of the sqlite queries, evaluated inside Coq
@@ -552,7 +549,6 @@ def main(argv=None):
                       for edge, v in ((k[1], a), (k[2], b)) if v and edge is not None and k[0] == "c" and v[0] != edge)
         ck.coverage["sqlite_float_params"] = {"distinct_queries": len(keys), "count_queries_with_inexact_param": inexact}
 
-        print('T floatparams', round(_t.time()-_t0,1), file=sys.stderr); _t0=_t.time()
         wires, index = [], []
         for ci, (case, r) in enumerate(zip(cases, results)):
             for be, run in r.items():
@@ -588,7 +584,6 @@ def main(argv=None):
                                     replay_obj(case, be, at, impl=rec[1], model=ma, stored=rec[2]))
                     break
 
-        print('T driver', round(_t.time()-_t0,1), file=sys.stderr); _t0=_t.time()
         # the float expressions of Bucket.get themselves (in Coq) against the forwarded edges
         rq = [(step[3], rec[1]) for case, r in zip(cases, results)
               if case["stream"] == "round" and "recs" in r.get("memory", {})
